@@ -83,6 +83,22 @@ def gen_find_world(rng, max_atoms=48, max_copies=6, families=None, cell_families
         els, P = pattern
         P = np.asarray(P, float)
     n = len(P)
+    axis_exact = pattern is None and n >= 2 and rng.random() < 0.12
+    if axis_exact:
+        # the pattern's alignment axis exactly along +-x/+-y/+-z with its first axis point at the origin, and (below) the
+        # first copy exactly antiparallel to it: the only way into the implementation's antiparallel branch, probed along
+        # every coordinate direction
+        a1, a2, _ = geom.effective_hints(P, None)
+        ax = P[a2] - P[a1]
+        L = float(np.linalg.norm(ax))
+        u = ax / L
+        v = np.cross(u, [0.3, 0.5, 0.8])
+        v /= np.linalg.norm(v)
+        B = np.array([u, v, np.cross(u, v)])
+        P = (P - P[a1]) @ B.T
+        P[a1] = 0.0
+        P[a2] = [L, 0.0, 0.0]
+        P = P @ geom.CUBE_ROTS[rng.randrange(24)].T
     D = geom.diameter(P)
     atol = rng.choice(atols or geom.ATOLS)
     if n > 1:
@@ -90,7 +106,7 @@ def gen_find_world(rng, max_atoms=48, max_copies=6, families=None, cell_families
         dmin_pat = pd[np.triu_indices(n, 1)].min()
         while atol > dmin_pat / 5.0:
             atol = atol / 2.0
-    hints = pick_hints(rng, P, hints_prob)
+    hints = None if axis_exact else pick_hints(rng, P, hints_prob)
     K = geom.amplification_K(P, hints)
     eps_max = atol / (2.0 * K)
     min_width = max(D + 2 * atol, 2.2) * width_mult
@@ -102,7 +118,7 @@ def gen_find_world(rng, max_atoms=48, max_copies=6, families=None, cell_families
     atoms_pos, atoms_el = [], []
     planted = []
     ncopies = rng.randint(min_copies, max_copies)
-    want_antiparallel = n >= 2 and rng.random() < 0.25
+    want_antiparallel = n >= 2 and (axis_exact or rng.random() < 0.25)
     a1, a2, op = geom.effective_hints(P, hints) if n >= 2 else (0, 0, None)
 
     def place(X, kind, pose, bclass, eps):
@@ -124,6 +140,11 @@ def gen_find_world(rng, max_atoms=48, max_copies=6, families=None, cell_families
         if pose == "antiparallel":
             # proper rotation by pi about an axis perpendicular to the pattern's axis: maps the axis onto its negative
             ax = P[a2] - P[a1]
+            if axis_exact:
+                k = int(np.argmax(np.abs(ax)))
+                perp = np.zeros(3)
+                perp[(k + rng.choice((1, 2))) % 3] = 1.0
+                return np.diag(2 * perp - 1.0)      # exact: diag(+1 on perp, -1 elsewhere), determinant +1
             perp = np.cross(ax, [rng.gauss(0, 1) for _ in range(3)])
             if np.linalg.norm(perp) < 1e-6:
                 perp = np.cross(ax, [1.0, 0.3, 0.2])
@@ -145,7 +166,7 @@ def gen_find_world(rng, max_atoms=48, max_copies=6, families=None, cell_families
             R = random_pose(pose)
             X = P @ R.T
             eps = 0.0
-            if noise and rng.random() < 0.75:
+            if noise and rng.random() < 0.75 and not (axis_exact and pose == "antiparallel"):
                 eps = eps_max * rng.choice([0.5, 0.45, 0.25, 0.05])
                 N = np.array([[rng.gauss(0, 1) for _ in range(3)] for _ in range(n)])
                 N = N / np.maximum(np.linalg.norm(N, axis=1, keepdims=True), 1e-12) * eps * \
@@ -207,7 +228,7 @@ def gen_find_world(rng, max_atoms=48, max_copies=6, families=None, cell_families
         "hints": hints,
         "planted": planted,
         "scripts": default_scripts(rng, antiparallel=any(p["pose"] == "antiparallel" for p in planted)),
-        "meta": {"family": family, "cell_family": cfam, "tight_axes": sorted(tight_axes), "K": K, "D": D},
+        "meta": {"family": family, "cell_family": cfam, "tight_axes": sorted(tight_axes), "K": K, "D": D, "axis_exact": axis_exact},
     }
 
 
